@@ -159,6 +159,16 @@ fn idstr_case<B: Backend>(c: &IdStrCase, acc: &mut Acc) -> R {
         acc.class("id-string:wrong-length");
         acc.nt(hash_of(&(&c.a, &c.b)));
     }
+    // a valid id followed by anything is not an id: extra characters, extra '.'-separated sections
+    if c.a.len() == 33 {
+        let good = format!("{h}{}", b64_encode(&c.a));
+        let tail = b64_encode(&c.b);
+        for ext in [".".to_string(), "..".to_string(), ".AAAA".to_string(), format!(".{tail}"), format!(".{good}"), " ".to_string(), "=".to_string(), "A".to_string(), "AAAA".to_string(), format!("{}", &good[good.len() - 4..])] {
+            let t = format!("{good}{ext}");
+            ensure!(t.parse::<KeyId<V<B>, Local>>().is_err(), format!("C13/{name}/id-parse/extended-id-accepted"), "the id text followed by {ext:?} was accepted as an id");
+        }
+        acc.class("id-string:extensions-of-a-valid-id");
+    }
     // arbitrary strings: accepted iff header + canonical base64 of exactly 33 bytes
     let j = c.junk.parse::<KeyId<V<B>, Local>>();
     let model_ok = c.junk.strip_prefix(&h).and_then(crate::util::b64_decode).map(|b| b.len() == 33).unwrap_or(false);
@@ -279,7 +289,7 @@ pub fn def() -> PropertyDef {
     PropertyDef {
         id: "C13",
         level: "exploration",
-        rule: "proptest cases: generated keys of every kind per back end (v1 keys also offered as PEM) - id text equals the reference digest (SHA-384[..33] / BLAKE2b-33 by a foreign library) of `kN.<lid|sid|pid>.` || canonical PASERK text; equal across clone / serialise / parse / PEM-vs-DER / sibling back end / public_key(); related lid/sid/pid differ. Id strings: bodies of 0..80 bytes and arbitrary strings are accepted iff header + strict base64url of exactly 33 bytes; ==, Ord, Hash agree with the bytes. Ed25519 public keys in edge encodings (unreduced y, small order, x = 0 with sign bit): whatever is accepted has the id of its own serialisation, stable across parse, and the same id on the sibling. Non-trivial iff a generated (non-vector) key or an id body of length != 33 / a compared pair",
+        rule: "proptest cases: generated keys of every kind per back end (v1 keys also offered as PEM) - id text equals the reference digest (SHA-384[..33] / BLAKE2b-33 by a foreign library) of `kN.<lid|sid|pid>.` || canonical PASERK text; equal across clone / serialise / parse / PEM-vs-DER / sibling back end / public_key(); related lid/sid/pid differ. Id strings: bodies of 0..80 bytes and arbitrary strings are accepted iff header + strict base64url of exactly 33 bytes; a valid id followed by extra characters or '.'-separated sections is rejected; ==, Ord, Hash agree with the bytes. Ed25519 public keys in edge encodings (unreduced y, small order, x = 0 with sign bit): whatever is accepted has the id of its own serialisation, stable across parse, and the same id on the sibling. Non-trivial iff a generated (non-vector) key or an id body of length != 33 / a compared pair",
         assumptions: vec!["the canonical PASERK text of v1 keys is the DER form (as the upstream vectors require)"],
         subs,
     }
